@@ -372,6 +372,10 @@ class Model():
         for field_name in field_names:
             for asset in getattr(association, field_name):
                 asset_assocs = list(asset.associations)
+                if any(assoc is association for assoc in asset_assocs):
+                    # The asset is on both sides of the association and
+                    # already refers to it.
+                    continue
                 asset_assocs.append(association)
                 asset.associations = asset_assocs
 
